@@ -298,6 +298,10 @@ func (g *worldGen) parameter(doc string, toks []string, rank int) map[string]int
 	if g.r.Intn(3) != 0 {
 		p["in"] = "body"
 		p["schema"] = g.schemaOrSlot(doc, append(append([]string{}, toks...), "schema"), 1, rank, "schema:parameter.schema")
+	} else if g.r.Intn(2) == 0 {
+		p["in"] = "query"
+		p["type"] = "array"
+		p["items"] = map[string]interface{}{"type": "string", "format": g.marker(doc, append(append([]string{}, toks...), "items"))}
 	} else {
 		p["in"] = "query"
 		p["type"] = "string"
